@@ -1748,6 +1748,8 @@ pub fn run_c04(p: &Params) -> Outcome {
     out.merge(run_rounds("C04", p, "w1-register", p.n(1_500, 60_000), round_w1));
     out.merge(run_rounds("C04", p, "w2-append-list", p.n(800, 30_000), round_w2));
     out.merge(run_rounds("C04", p, "w3-guards", p.n(600, 20_000), round_w3));
+    // the async-lock flavour is a SharedObservable, too
+    out.merge(run_rounds("C04", p, "w1-register-async", p.n(600, 20_000), round_w1_async));
     out
 }
 
